@@ -4,11 +4,15 @@
    valid row pointer and every D — in particular when constrained rows store no entry (finding F6 on the
    pinned tree: there this lemma does not compile). *)
 From Coq Require Import List ZArith.
-Require Import Base.C05_Np Model.C05_BC Model.C05_MPC Proofs.C05_IdxProofs Proofs.C05_CondenseProofs Proofs.C05_EnforceProofs
-               Proofs.C05_ChainProofs Gen.C05Gen.
+Require Import Base.C05_Np Model.C05_BC Model.C05_MPC Model.C05_Ext Proofs.C05_IdxProofs Proofs.C05_CondenseProofs Proofs.C05_EnforceProofs
+               Proofs.C05_ChainProofs Proofs.C05_PenalizeProofs Proofs.C05_ExtProofs Gen.C05Gen.
 
 Lemma gen_flatten_dict_is_model : forall views, gen_flatten_dict views = flatten_dofs views.
 Proof. reflexivity. Qed.
+(* an index array with repeated entries denotes a set: the array branch of _flatten_dofs returns a duplicate-free list
+   with the same elements (fails to compile on a tree where repeated indices are passed through) *)
+Lemma gen_flatten_array_correct : flat_correct gen_flatten_array.
+Proof. intros n S HB. exact (dedup_first_set n S HB). Qed.
 Lemma gen_init_bc_is_model : forall n I D, gen_init_bc n I D = init_bc n I D.
 Proof. reflexivity. Qed.
 Lemma gen_condense_A_is_model : forall R (A : list (list (nat * R))) I, gen_condense_A A I = condense_A A I.
